@@ -349,6 +349,14 @@ class IntroVisitor(ast.NodeVisitor):
         )
         if fi_or_p is not None and isinstance(fi_or_p, FunctionInteractions):
             self.inters.append(fi_or_p)
+            # The function passed to keep() has just been analysed with its actual arguments.
+            # It must not be analysed again by-name (without arguments) when visiting the arguments.
+            if (
+                fi_or_p.store_path is not None
+                and len(node.args) >= 2
+                and isinstance(node.args[1], ast.Name)
+            ):
+                self._store_names.add(LocalVar(node.args[1].id))
         # str is the underlying type of a DDSPath
         if fi_or_p is not None and isinstance(fi_or_p, str):
             self.load_paths.append(fi_or_p)
